@@ -64,6 +64,9 @@ def generate(rng, tier):
             qn, qt = rng.choice([(s["type"], 12), (s["type"], 12), (s["name"], 33), (s["name"], 16), (r.server, 1),
                                  (r.server, 28), (s["name"], 255), (ENUM, 12), ("nobody." + s["type"], 33)])
             qs.append([qn, qt, int(rng.random() < 0.45)])
+        if rng.random() < 0.08:
+            # a question for the root name rides along (a resolver probing for its search domain, say)
+            qs.insert(rng.randrange(len(qs) + 1), [".", rng.choice([2, 6, 1]), 0])
         msg = {"q": qs, "id": qid}
         if rng.random() < 0.2:
             s = rng.choice(svcs)
